@@ -444,8 +444,13 @@ def normalize(got, want, runstate=None):
             if not _matches(a):
                 for q in ['"', "'"]:
                     if len(a) >= 2 and a.startswith(q) and a.endswith(q):
-                        if _matches(a[1:-1]):
-                            return a[1:-1]
+                        inner = a[1:-1]
+                        if runstate['NORMALIZE_WHITESPACE']:
+                            # whitespace the quotes protected from the
+                            # normalization above is insignificant as well
+                            inner = inner.strip()
+                        if _matches(inner):
+                            return inner
             return a
         got = norm_repr(got, want)
         want = norm_repr(want, got, a_is_want=True)
